@@ -652,7 +652,7 @@ class Fn:
                     return kind
             return None
         if from_entry:
-            sb, sp = 0, -1
+            sb, sp = 0, -2
         else:
             sb, sp = start.b, start.pos[1]
         r = scan(sb, sp)
@@ -667,7 +667,7 @@ class Fn:
             if b_ in seen:
                 continue
             seen.add(b_)
-            r = scan(b_, -1)
+            r = scan(b_, -2)
             if r == 'goal':
                 return path
             if r == 'avoid':
